@@ -254,6 +254,9 @@ structure World where
   t : Nat := 0
   ctr : Nat := 0
   pending : Option Pending := none
+  /-- responses of OTHER polls of the same client that are still in flight (`updateService` is not serialised: the
+      background `update()` and `ActivateServiceForSubject` may overlap); applied later, in any order -/
+  delayed : List Pending := []
   deriving Repr, Inhabited
 
 inductive Ev where
@@ -264,6 +267,8 @@ inductive Ev where
   | pollB (perm : List VP → List VP)
   | validate
   | clientVerifier (up : Bool)   -- the client node's verifier goes down / comes back
+  | dpollStart                   -- another poll of the same client: timestamp read, `Get` answered (both reads), response in flight
+  | dpollFinish (i : Nat) (perm : List VP → List VP)   -- the i-th in-flight response arrives and is applied
 
 /-- outcome class of the last operation (what the harness compares) -/
 abbrev Out := Res Unit
@@ -292,6 +297,15 @@ def step (cfg : Cfg) (d : Def) (w : World) : Ev → World × Out
       ({ w with C := c', ctr := ctr', pending := none }, r)
   | .validate => ({ w with C := clientValidate d w.C w.t }, .ok ())
   | .clientVerifier up => ({ w with C := { w.C with verifierUp := up } }, .ok ())
+  | .dpollStart =>
+    let after := w.C.lastTs
+    ({ w with delayed := w.delayed ++ [{ after := after, seed := w.S.seed, ts := w.S.lastTs, rows := w.S.rowsAfter after }] }, .ok ())
+  | .dpollFinish i perm =>
+    match w.delayed[i]? with
+    | none => (w, .err "no-poll")
+    | some p =>
+      let (c', ctr', r) := clientApply cfg d w.C w.t w.ctr p.seed p.ts (perm (p.rows.map (·.vp)))
+      ({ w with C := c', ctr := ctr', delayed := w.delayed.eraseIdx i }, r)
 
 def run (cfg : Cfg) (d : Def) : World → List Ev → World
   | w, [] => w
